@@ -364,30 +364,39 @@ def mode_forest(case, chan):
     return conv(case['forest'])
 
 
-def ncnest_passthrough(case):
-    """(P) the statement side, computed from the case alone: the tokens that must be on the original stream of a
-    channel = the own writes of every capture-off execution all of whose ancestors pass text on (capture off, or
-    capture on and live on that channel), plus the live copies of capturing executions under the same condition"""
+def ncnest_expect(case):
+    """(P) the statement side, computed from the case alone: what every capturing action's buffer and the original
+    stream of a channel must hold.  A token goes into the buffer of its author if that captures, and on to the
+    enclosing execution iff the author passes text on: capture off (always, whatever the verbosity), or capture on
+    and live on that channel; and so on up to the original stream."""
     verb = {int(k): v for k, v in case.get('verb', {}).items()}
     capm = {int(k): v for k, v in case.get('cap', {}).items()}
-    res = {'o': [], 'e': []}
+    acts = actlib.forest_actions(case['forest'])
+    bufs = {c: {str(a): [] for a in acts if not acts[a]['kw'] and capm.get(a, True)} for c in 'oe'}
+    orig = {'o': [], 'e': []}
 
-    def passes(a, chan):
-        if not capm.get(a, True):
-            return True
+    def live(a, chan):
         v = verb.get(a, 0)
         return (v not in (0, 1)) if chan == 'o' else (v != 0)
 
-    def walk(items, owner, reach):
+    def walk(items, owner):
         for it in items:
             if it[0] == 'w' and owner is not None:
                 for chan in 'oe':
-                    if reach[chan]:
-                        res[chan].append([owner, it[1]])
+                    x = owner
+                    while True:
+                        if capm.get(x, True):
+                            bufs[chan][str(x)].append([owner, it[1]])
+                            if not live(x, chan):
+                                break
+                        x = acts[x]['parent']
+                        if x is None:
+                            orig[chan].append([owner, it[1]])
+                            break
             elif it[0] == 'x':
-                walk(it[2], it[1], {c: reach[c] and passes(it[1], c) for c in 'oe'})
-    walk(case['forest'], None, {'o': True, 'e': True})
-    return res
+                walk(it[2], it[1])
+    walk(case['forest'], None)
+    return bufs, orig
 
 
 RUNNERS = {'py': actlib.run_py, 'cmd': actlib.run_cmd, 'task': actlib.run_task, 'nested': actlib.run_nested,
@@ -540,7 +549,14 @@ def judge(case, obs, model):
         cmp('cell-not-restored', 'P', obs['restored'], [True, True])
         for rec in obs['after_each_top']:
             cmp('cell-not-restored', 'P', rec[1:], [True, True])
-        want = ncnest_passthrough(case)
+        bufs, want = ncnest_expect(case)
+        for a, e in (obs.get('escaped') or {}).items():
+            if a in case['cap']:
+                ok = [None, 'KeyboardInterrupt'] if case['ending'].get(a) == 'base' else [None]
+                if actlib.forest_actions(case['forest'])[int(a)]['kw']:
+                    ok = ['InvalidTask']
+                if e not in ok:
+                    bad.append(('escaped-exception', 'P', 'action %s: %s left Task.execute' % (a, e)))
         for chan, name, mf in (('o', 'out', model[0]), ('e', 'err', model[1])):
             live = obs['O' if chan == 'o' else 'E']
             cmp('mode-cell', 'K', mf['cell'], 'orig')
@@ -550,8 +566,9 @@ def judge(case, obs, model):
                 cmp('mode-model-out', 'K', got, mo)                       # token for token; None when capture is off
                 if not capm.get(int(a), True):
                     cmp('nocapture-stored', 'P', got, None)                # nothing captured when capture is off
-                elif got is not None:
-                    cmp('misattributed', 'P', [t for t in got if str(t[0]) == a], mf['spec'][a])
+                else:
+                    cmp('misattributed', 'P', None if got is None else [t for t in got if str(t[0]) == a], mf['spec'][a])
+                    cmp('forwarded', 'P', got, bufs[chan].get(a))
             cmp('mode-model-orig', 'K', live, mf['origLog'])
             # (P) nocapture_passthrough: in order, exactly once, whatever the verbosity of the capture-off executions
             cmp('nocapture-passthrough', 'P', live, want[chan])
